@@ -13,8 +13,8 @@ import time
 VERIF = os.path.dirname(os.path.dirname(os.path.abspath(__file__)))
 REPO = os.environ.get('VERIF_REPO', '/repo')
 BUILD = os.path.join(VERIF, '.build')
-EVID = os.path.join(VERIF, 'evidence')
-REPLAY = os.path.join(VERIF, 'replay')
+EVID = os.environ.get('VERIF_EVIDENCE_DIR') or os.path.join(VERIF, 'evidence')
+REPLAY = os.environ.get('VERIF_REPLAY_DIR') or os.path.join(VERIF, 'replay')
 KNOWN = os.path.join(VERIF, 'known_findings.txt')
 
 
